@@ -698,8 +698,10 @@ def run(ctx):
     for ul, kind, hv, dtype in itertools.product(
             ["brownian", "heston", "local_vol"] if ctx.quick else uls[:6],
             market.OPTION_KINDS if ctx.thorough else ("european", "lookback", "american_binary"),
-            ["default", "ul+listed", "ul+listed+listed3"], ["float64", "float32"]):
-        H = {"default": 1, "ul+listed": 2, "ul+listed+listed3": 3}[hv]
+            ["default", "ul+listed", "ul+listed+listed3", "listed+ul"], ["float64", "float32"]):
+        H = {"default": 1, "ul+listed": 2, "ul+listed+listed3": 3, "listed+ul": 2}[hv]
+        if hv == "listed+ul" and (ul != "brownian" or kind != "european" or dtype != "float64"):
+            continue
         if ctx.quick and ((H == 3 and (ul != "brownian" or kind != "european"))
                           or (dtype == "float32" and (ul != "brownian" or kind != "european"))
                           or (H == 2 and kind == "american_binary")):
